@@ -13,7 +13,9 @@ signatures; listed ones are KNOWN-FINDINGs, anything else is a VIOLATION.
 """
 import json
 import os
+import re
 import sqlite3
+from collections import Counter
 import subprocess
 import vlib
 
@@ -89,8 +91,10 @@ def run_sqlite(case):
         con.close()
 
 
-def table_sexp(t):
+def table_sexp(t, unordered=False):
     s = "(t (types %s)" % " ".join(c[1] for c in t["cols"])
+    if unordered:
+        s += " (unordered)"
     for ch in t["chunks"]:
         s += " (c " + " ".join("(r %s)" % " ".join(r) for r in ch) + ")"
     return s + ")"
@@ -114,43 +118,84 @@ def new_stats():
     return {"evaluations": 0, "shapes": {}, "join_kinds": {}, "aggs": {}, "impl_status": {}, "nonempty": 0,
             "model_vs_impl": {"compared": 0, "disagree": 0}, "impl_vs_oracle": {"compared": 0, "disagree": 0},
             "model_vs_oracle": {"compared": 0, "disagree": 0}, "l1_of_optimised_vs_l1_of_query": {"compared": 0, "disagree": 0},
-            "tags": {}, "distinct": set(), "physical_ops": {}, "order_sensitive_skipped": 0}
+            "tags": {}, "distinct": set(), "physical_ops": {}, "order_sensitive_skipped": 0, "engines": {}, "limit_unordered": 0, "disk_disabled_after_timeouts": False}
+
+
+def neutralise_limits(plan):
+    """the optimised plan with every `(limit n off` turned into `(limit null 0` (L2 of it = the full
+    answer the limited one must be drawn from)"""
+    return re.sub(r"\(limit \d+ \d+ ", "(limit null 0 ", plan)
+
+
+def sub_bag(a, b):
+    ca, cb = Counter(a), Counter(b)
+    return all(cb.get(k, 0) >= v for k, v in ca.items())
 
 
 def run_batch(ck, cases_path, stats):
     cases = [json.loads(l) for l in open(cases_path).read().split("\n") if l.strip()]
-    rc, out = vlib.sh([vlib.harness_bin("c02"), "run", cases_path], timeout=3000)
-    impl = {}
-    for l in out.split("\n"):
-        f = l.split("\t")
-        if len(f) >= 3:
-            impl[f[0]] = f[1:]
+    # the harness exits with code 3 after reporting a statement that does not come back (stuck
+    # optimizer): restart it behind that case
+    impl, start, index_of = {}, 0, {str(c["id"]): k for k, c in enumerate(cases)}
+    timeouts = 0
+    while True:
+        # every stuck statement costs the watchdog limit: after 3 of them the remaining triples of
+        # this batch run on the memory engine only
+        env = {"C02_TIMEOUT_S": "15"}
+        if timeouts >= 3:
+            env["C02_NO_DISK"] = "1"
+            stats["disk_disabled_after_timeouts"] = True
+        rc, out = vlib.sh([vlib.harness_bin("c02"), "run", cases_path, str(start)], timeout=6000, env=env)
+        last = None
+        for l in out.split("\n"):
+            f = l.split("\t")
+            if len(f) >= 3:
+                impl[f[0]] = f[1:]
+                last = f[0]
+        if rc == 3 and last is not None and index_of.get(last.split("@")[0], -1) >= start:
+            if not last.endswith("@disk") and cases[index_of[last.split("@")[0]]].get("disk"):
+                impl[last + "@disk"] = ["skipped ; ", "", ""]
+            start = index_of[last.split("@")[0]] + 1
+            timeouts += 1
+            continue
+        break
     # driver requests: only for cases whose plan text is a plan
-    req = os.path.join(ck.work, "drv_req_%d.txt" % len(stats["distinct"]))
+    req = os.path.join(ck.work, "drv_req_%d.txt" % stats["evaluations"])
+    runs = []
     with open(req, "w") as fh:
         for c in cases:
-            r = impl.get(str(c["id"]))
-            plan = r[1] if r and r[1].startswith("(") else "(unplanned)"
-            fh.write("(case %s (tables %s) (plans %s %s))\n" % (c["id"], " ".join(table_sexp(t) for t in c["tables"]), c["logical"], plan))
-    rc2, out2 = vlib.sh([vlib.lean_exe("drv_c02")], stdin=open(req).read(), timeout=3000)
+            for engine in ("memory", "disk"):
+                key = str(c["id"]) + ("@disk" if engine == "disk" else "")
+                if engine == "disk" and (not c.get("disk") or key not in impl):
+                    continue
+                runs.append((c, engine, key))
+                r = impl.get(key)
+                plan = r[1] if r and r[1].startswith("(") else "(unplanned)"
+                plans = [c["logical"], plan] + ([neutralise_limits(plan)] if c.get("limit") else [])
+                fh.write("(case %s (tables %s) (plans %s))\n" % (
+                    key, " ".join(table_sexp(t, engine == "disk") for t in c["tables"]), " ".join(plans)))
+    rc2, out2 = vlib.sh([vlib.lean_exe("drv_c02")], stdin=open(req).read(), timeout=6000)
     model = {}
     for l in out2.split("\n"):
         f = l.split("\t")
         if len(f) >= 3:
             model[f[0]] = f[1:]
-    for c in cases:
-        decide(ck, c, impl.get(str(c["id"])), model.get(str(c["id"])), stats)
+    for c, engine, key in runs:
+        decide(ck, c, impl.get(key), model.get(key), stats, engine)
     return cases
 
 
-def decide(ck, c, ir, mr, stats):
+def decide(ck, c, ir, mr, stats, engine="memory"):
     cid, shape, ordered = str(c["id"]), c["shape"], c["ordered"]
+    limit = c.get("limit")
     sc = shape_class(shape)
     stats["evaluations"] += 1
+    stats["engines"][engine] = stats["engines"].get(engine, 0) + 1
     stats["shapes"][sc] = stats["shapes"].get(sc, 0) + 1
-    rep = {"sql": c["sql"], "sqlite": c["sqlite"], "tables": c["tables"], "logical": c["logical"], "shape": shape}
+    rep = {"sql": c["sql"], "sqlite": c["sqlite"], "tables": c["tables"], "logical": c["logical"], "shape": shape,
+           "engine": engine, "limit": limit, "ordered": ordered}
     if ir is None or mr is None:
-        ck.report("corr:missing-answer", "case %s: no answer from %s" % (cid, "implementation" if ir is None else "model"), replay=rep, found_input=False)
+        ck.report("corr:missing-answer", "case %s (%s): no answer from %s" % (cid, engine, "implementation" if ir is None else "model"), replay=rep, found_input=False)
         return
     ist, irows = ir[0].split(";")[0].strip(), parse_rows(ir[0].split(";", 1)[1] if ";" in ir[0] else "")
     plan = ir[1]
@@ -158,6 +203,8 @@ def decide(ck, c, ir, mr, stats):
     for op in ("hashjoin", "mergejoin", "(join", "hashagg", "sortagg", "(agg", "topn", "(order", "(limit"):
         if op in plan:
             stats["physical_ops"][op.strip("(")] = stats["physical_ops"].get(op.strip("("), 0) + 1
+    if re.search(r"\(limit \d+ \d+ ", plan):
+        stats["physical_ops"]["limit-with-bound"] = stats["physical_ops"].get("limit-with-bound", 0) + 1
     stats["impl_status"][ist.split(" ")[0]] = stats["impl_status"].get(ist.split(" ")[0], 0) + 1
     ost, orows = run_sqlite(c)
     if ost != "ok":
@@ -165,13 +212,16 @@ def decide(ck, c, ir, mr, stats):
         return
     l1st, _, l1rows, _ = parse_cell(mr[0])
     l2st, l2rows, l1opt, tags = parse_cell(mr[1])
+    l2full = None
+    if limit and len(mr) > 2:
+        _, l2full, l1opt, _ = parse_cell(mr[2])
     sens = [t[len("order-sensitive:"):] for t in tags if t.startswith("order-sensitive:")]
     tags = [t for t in tags if not t.startswith("order-sensitive:")]
     O, L1 = canon(orows, ordered), canon(l1rows, ordered)
     rep.update({"sqlite_rows": O[:50], "l1_rows": L1[:50]})
     if O:
         stats["nonempty"] += 1
-        stats["distinct"].add(c["sql"] + json.dumps(c["tables"]))
+        stats["distinct"].add(c["sql"] + json.dumps(c["tables"]) + engine)
     # ---- model_vs_oracle: the spec itself ------------------------------------------------------
     if l1st.split(" ")[0] not in ("ok", "unsupported"):  # only the spec reading of plan 1 is used
         ck.report("corr:l1-cannot-run", "L1 could not evaluate the logical plan: %s" % l1st, replay=rep, found_input=False)
@@ -182,18 +232,34 @@ def decide(ck, c, ir, mr, stats):
         ck.report("spec:l1-vs-sqlite/" + sc, "the L1 spec and SQLite disagree on %s: L1=%s SQLite=%s" % (c["sql"], L1[:5], O[:5]), replay=rep, found_input=False)
     # ---- implementation --------------------------------------------------------------------------
     stats["impl_vs_oracle"]["compared"] += 1
+    if ist.startswith("skipped"):
+        return
+    if ist.startswith("timeout"):
+        stats["impl_vs_oracle"]["disagree"] += 1
+        ck.report("exec:timeout/%s" % engine, "statement does not come back within the watchdog limit on the %s engine (optimizer does not terminate): %s" % (engine, c["sql"]), replay=rep)
+        return
     if ist != "ok":
         stats["impl_vs_oracle"]["disagree"] += 1
         kind = "panic" if ist.startswith("panic") else "error"
         what = ist
-        mech = "column-not-found" if "not found from input" in ist else "other"
+        mech = ("column-not-found" if "not found from input" in ist else
+                "apply-not-rewritten" if "Apply is not supported" in ist else
+                "unwrap-none" if "Option::unwrap()" in ist else "other")
         ck.report("exec:%s/%s" % (kind, mech), "statement fails instead of answering (%s): %s" % (what[:120], c["sql"]), replay=rep)
         return
     I = canon(irows, ordered)
     rep["impl_rows"] = I[:50]
-    if len(ir) > 2 and ir[2].strip() == "plan-run-differs" and not sens:
+    if len(ir) > 2 and ir[2].strip() == "plan-run-differs" and not sens and not limit:
         ck.report("corr:plan-capture", "the captured optimised plan does not reproduce Database::run's answer", replay=rep, found_input=False)
-    observed = I != O
+    if limit:
+        # LIMIT/OFFSET without ORDER BY: which rows come back is not defined; only how many, and
+        # that each of them is a row of the unlimited answer (with multiplicity)
+        want = min(limit[0], max(0, len(O) - limit[1]))
+        rep["limit_expected_count"] = want
+        observed = not (len(I) == want and sub_bag(I, O))
+        stats["limit_unordered"] += 1
+    else:
+        observed = I != O
     if observed:
         stats["impl_vs_oracle"]["disagree"] += 1
     # ---- model_vs_impl: L2 of the plan that ran --------------------------------------------------
@@ -201,13 +267,26 @@ def decide(ck, c, ir, mr, stats):
     L2 = canon(l2rows, ordered)
     L1o = canon(l1opt, ordered)
     rep.update({"l2_rows": L2[:50], "tags": tags})
+    if l2st.startswith("unsupported"):
+        # the plan contains an executor that does not exist (`todo!()` nested-loop right/full outer
+        # join): the operator task dies and the statement returns no rows
+        if observed:
+            stats["tags"]["nljoin:outer-todo"] = stats["tags"].get("nljoin:outer-todo", 0) + 1
+            ck.report("nljoin:outer-todo", "the chosen plan uses the nested-loop RIGHT/FULL OUTER join, which is todo!(): `%s` returns %s, SQLite %s" % (c["sql"], I[:4], O[:4]), replay=rep)
+        else:
+            stats["unsupported_but_equal"] = stats.get("unsupported_but_equal", 0) + 1
+        return
     if not l2ok:
         ck.report("corr:l2-cannot-run/" + l2st.split(" ")[0], "the L2 model can not interpret the optimised plan (%s): %s" % (l2st, plan[:300]), replay=rep, found_input=False)
     elif sens and len(L2) == len(I):
         stats["order_sensitive_skipped"] += 1
     else:
         stats["model_vs_impl"]["compared"] += 1
-        if L2 != I:
+        if limit:
+            differs = not (len(L2) == len(I) and (l2full is None or sub_bag(I, canon(l2full, False))))
+        else:
+            differs = L2 != I
+        if differs:
             stats["model_vs_impl"]["disagree"] += 1
             ck.report("corr:l2-vs-impl/" + sc, "L2 model of the executed plan and the implementation disagree on %s: L2=%s impl=%s" % (c["sql"], L2[:5], I[:5]), replay=rep, found_input=False)
     if l2ok:
@@ -219,7 +298,7 @@ def decide(ck, c, ir, mr, stats):
     # ---- the property fails on the implementation for this input: name the mechanism ------------
     what = "RisingLight and SQLite disagree on `%s`: impl=%s SQLite=%s" % (c["sql"], I[:6], O[:6])
     explained = False
-    if l2ok and (L2 == I or sens):
+    if l2ok and (L2 == I or sens or (limit and len(L2) == len(I))):
         for t in sorted(set(tags) | set(sens)):
             explained = True
             stats["tags"][t] = stats["tags"].get(t, 0) + 1
@@ -237,7 +316,7 @@ def decide(ck, c, ir, mr, stats):
 
 
 def run(ck):
-    n = 400 if ck.quick() else 8000
+    n = 600 if ck.quick() else 10000
     bad = vlib.step_lean(ck, "RlModel.Thm.C02", THEOREMS, extra_targets=["drv_c02"])
     ok, log = vlib.step_cargo(ck, ["c02"])
     if not ok:
@@ -249,10 +328,17 @@ def run(ck):
         ck.log("corpus: %s" % cfile)
         run_batch(ck, cfile, stats)
     corpus_evals = stats["evaluations"]
-    cases_path = os.path.join(ck.work, "cases.jsonl")
-    vlib.sh([vlib.harness_bin("c02"), "gen", str(n), cases_path])
-    ck.log("generated %d (schema, data, query) triples (seed %s)" % (n, ck.seed))
-    cases = run_batch(ck, cases_path, stats)
+    # batches of at most 1000 triples (the disk engine is switched off for the rest of a batch after
+    # 3 stuck statements); batch k uses seed + 7919 k
+    cases, done, k = [], 0, 0
+    while done < n:
+        m = min(1000, n - done)
+        cases_path = os.path.join(ck.work, "cases_%d.jsonl" % k)
+        vlib.sh([vlib.harness_bin("c02"), "gen", str(m), cases_path], env={"VERIF_SEED": str(ck.seed + 7919 * k)})
+        ck.log("batch %d: %d (schema, data, query) triples (seed %s)" % (k, m, ck.seed + 7919 * k))
+        cases += run_batch(ck, cases_path, stats)
+        done += m
+        k += 1
     for name, st in bad.items():
         ck.report("thm:" + name, "theorem %s is not discharged (%s)" % (name, st.get("status")),
                   replay={"theorem": name, "status": st, "searched": "corpus + %d generated triples against SQLite" % n}, found_input=False)
@@ -267,7 +353,8 @@ def run(ck):
                          "reason_tags_seen": stats["tags"], "corpus_evaluations": corpus_evals,
                          "l1_of_optimised_plan_vs_l1_of_query": stats["l1_of_optimised_vs_l1_of_query"],
                          "order_sensitive_plans_not_compared_with_model": stats["order_sensitive_skipped"],
-                         "engine": "memory"},
+                         "engines": stats["engines"], "disk_disabled_after_3_timeouts": stats["disk_disabled_after_timeouts"],
+                         "limit_offset_without_order_by(count+membership only)": stats["limit_unordered"]},
     })
     return ck.finish(level="proof", trusted_base=[
         "Lean 4 kernel (theorems about Model.Rel / Model.Exec)",
@@ -285,7 +372,8 @@ def replay(path):
         return 0
     work = os.path.join(vlib.WORK, "C02-replay-%d" % os.getpid())
     os.makedirs(work, exist_ok=True)
-    case = {"id": 0, "shape": rep.get("shape", ""), "tables": rep["tables"], "sql": rep["sql"], "sqlite": rep["sqlite"], "logical": rep["logical"], "ordered": False}
+    case = {"id": 0, "shape": rep.get("shape", ""), "tables": rep["tables"], "sql": rep["sql"], "sqlite": rep["sqlite"], "logical": rep["logical"],
+            "ordered": rep.get("ordered", False), "limit": rep.get("limit"), "disk": rep.get("engine") == "disk"}
     p = os.path.join(work, "case.jsonl")
     open(p, "w").write(json.dumps(case) + "\n")
     rc, out = vlib.sh([vlib.harness_bin("c02"), "run", p])
